@@ -151,6 +151,7 @@ type Res struct {
 	CPU   int64    `json:"cpu,omitempty"` // process CPU ns consumed by the call
 	Dig   string   `json:"dg,omitempty"`  // strrange / keepdump digest
 	Info  []string `json:"info,omitempty"`
+	Agg   int      `json:"agg,omitempty"` // conc mode with Loops: this record stands for Agg identical observations of later passes
 
 	// set by the parent only
 	Died string `json:"died,omitempty"` // the child process ended while this call was in flight (stderr tail)
@@ -162,4 +163,8 @@ type Conc struct {
 	GoMaxProcs int    `json:"gmp"`
 	Workers    [][]Op `json:"w"`
 	Shared     *Src   `json:"shared,omitempty"` // installed before the workers start; Read is mutex protected
+	// Loops > 1: every worker runs its op list Loops times. The first pass is
+	// recorded call by call; for the later passes the child only keeps, per op, one
+	// sample of every DISTINCT observation (result, error, panic) with a count.
+	Loops int `json:"loops,omitempty"`
 }
